@@ -1,6 +1,6 @@
 (** i64 operations as the repaired eval_i64 / eval_number use them (checked_* and friends).
     Values are unbounded [Z] constrained to the i64 range. *)
-From Coq Require Import ZArith Bool Lia.
+From Coq Require Import ZArith Bool Lia List.
 From SC Require Import Base.Res.
 Local Open Scope Z_scope.
 
@@ -56,14 +56,20 @@ Fixpoint gcd_loop (fuel : nat) (a b : Z) : res Z :=
   | S f => if b =? 0 then Ok a else gcd_loop f b (wrapping_rem a b)
   end.
 Definition gcd_fuel : nat := 200.
-Definition rgcd (a b : Z) : res Z :=
-  let* g := gcd_loop gcd_fuel a b in of_option (checked_abs g).
-Definition rlcm (a b : Z) : res Z :=
+Definition u64_max : Z := 2 ^ 64 - 1.
+(** gcd / lcm on u64 magnitudes (non-negative operands, so [%] is [Z.rem] = [mod]) *)
+Definition ugcd (a b : Z) : res Z := gcd_loop gcd_fuel a b.
+Definition ulcm (a b : Z) : res Z :=
   if (a =? 0) || (b =? 0) then Ok 0
   else
-    let* g := rgcd a b in
-    let* m := of_option (checked_mul (Z.quot a g) b) in
-    of_option (checked_abs m).
+    let* g := ugcd a b in
+    let m := Z.quot a g * b in
+    if m <=? u64_max then Ok m else Err.       (* u64::checked_mul *)
+Fixpoint rfold (f : Z -> Z -> res Z) (acc : Z) (vs : list Z) : res Z :=
+  match vs with
+  | nil => Ok acc
+  | cons v vs' => let* a := f acc v in rfold f a vs'
+  end.
 (** number of loop iterations of [gcd] (for the cost model) *)
 Fixpoint gcd_steps (fuel : nat) (a b : Z) : nat :=
   match fuel with
